@@ -772,6 +772,7 @@ template<class AIO> static void add_allfrag_cells(const Mode *modes, size_t nmod
 			// the state space is quadratic and the transition count cubic in the wire length (octets waiting in the pipe are a
 			// dimension of their own): the quick tier keeps the wire images of at most 200 octets
 			if (!thorough && w.bytes.size() > 200) continue;
+			if (w.bytes.size() > 340) continue;   // thorough: up to 340 octets (3.4 M transitions, ~5 min per cell)
 			for (size_t sched = 1; sched <= 3; sched++)
 			{
 				if (sched != aiounicast::aio_scheduler_roundrobin && !(exs[xi].allsched && thorough)) continue;
